@@ -1,1 +1,170 @@
-//! C13 monitor (filled in below)
+//! C13 — sink failures and partial writes never corrupt, duplicate or hide data.
+
+use super::*;
+use crate::exec::{run_fault, ExecOpts};
+use crate::sink::{Fault, KINDS};
+
+fn v(sig: String, detail: String) -> Violation {
+    Violation::new("C13", sig, detail)
+}
+
+pub struct Reference {
+    pub bytes: Vec<u8>,
+    pub writes: usize,
+    pub finish_idx: usize,
+    pub finish_res: Res,
+    /// (offset, len) of every write call of the fault-free run
+    pub write_spans: Vec<(u64, usize)>,
+}
+
+pub fn reference(h: &History) -> Option<Reference> {
+    let (ex, sink) = run_fault(h, &ExecOpts::default(), Fault::None);
+    let finish_idx = h.ops.iter().position(|o| o.is_finish())?;
+    if !ex.results[finish_idx].is_ok() {
+        return None;
+    }
+    let (bytes, spans) = sink.with(|s| (s.bytes.clone(), s.events.iter().map(|e| (e.at, e.offered)).collect::<Vec<_>>()));
+    Some(Reference { writes: spans.len(), bytes, finish_idx, finish_res: ex.results[finish_idx].clone(), write_spans: spans })
+}
+
+fn fault_name(f: &Fault) -> &'static str {
+    match f {
+        Fault::None => "none",
+        Fault::FailWrite { .. } => "fail-write",
+        Fault::AcceptThenFail { .. } => "accept-n-then-fail",
+        Fault::ZeroAt { .. } => "ok-zero",
+        Fault::Schedule { .. } => "short+interrupted",
+        Fault::OneByte => "one-byte",
+    }
+}
+
+/// Run `h` under `fault` and judge it against the fault-free reference.
+pub fn check_one(h: &History, fault: &Fault, r: &Reference, obs: &mut Obs) -> Vec<Violation> {
+    let mut out = Vec::new();
+    let (ex, sink) = run_fault(h, &ExecOpts::default(), fault.clone());
+    let fname = fault_name(fault);
+    if let Some((i, Res::Panic { msg, loc })) = ex.first_panic() {
+        out.push(v(format!("panic-under-fault|{}|{}", fname, h.ops[i].name()), format!("call #{} panicked at {}: {} under {:?}", i, loc, msg, fault)));
+        return out;
+    }
+    let (bytes, events, fatal) = sink.with(|s| (s.bytes.clone(), s.events.clone(), s.fatal_delivered));
+    let fr = &ex.results[r.finish_idx];
+    // Err <=> a fatal result was delivered
+    match (fr, fatal) {
+        (Res::Err(e), true) => {
+            if e.class != ErrClass::Io {
+                out.push(v(format!("finish-error-not-io|{}", fname), format!("finish failed with {} under {:?}", e.variant, fault)));
+            }
+        }
+        (Res::Ok, false) | (Res::OkStats(_), false) => {}
+        (Res::Err(e), false) => out.push(v(format!("finish-err-without-failure|{}", fname), format!("finish returned {} ({}) although the sink never failed ({:?})", e.variant, e.detail, fault))),
+        (Res::Panic { .. }, _) | (Res::Skipped, _) => {}
+        (_, true) => out.push(v(format!("finish-ok-despite-failure|{}", fname), format!("finish returned {} although the sink delivered a fatal result ({:?})", fr.brief(), fault))),
+    }
+    // accepted bytes are a prefix of the fault-free file
+    if bytes.len() > r.bytes.len() || bytes[..] != r.bytes[..bytes.len()] {
+        let pos = bytes.iter().zip(r.bytes.iter()).position(|(a, b)| a != b).unwrap_or(r.bytes.len().min(bytes.len()));
+        out.push(v(format!("not-a-prefix|{}", fname), format!("sink holds {} bytes that are not a prefix of the {}-byte fault-free file (first difference at {}) under {:?}", bytes.len(), r.bytes.len(), pos, fault)));
+    }
+    // after the first fatal event nothing further is offered to the sink
+    if let Some(pos) = events.iter().position(|e| matches!(e.res, Err(k) if k != usize::MAX) || (e.res == Ok(0) && e.offered > 0)) {
+        if let Some(later) = events.get(pos + 1) {
+            out.push(v(
+                format!("write-after-failure|{}|{}", fname, h.ops.get(later.seq as usize).map(|o| o.name()).unwrap_or("?")),
+                format!("after the failure (event {}), call #{} offered another {} bytes to the sink under {:?}", pos, later.seq, later.offered, fault),
+            ));
+        }
+        obs.count("faults_after_first_accepted_byte", (events[pos].at > 0) as u64);
+    }
+    if !fatal {
+        if bytes != r.bytes {
+            out.push(v(format!("non-fatal-schedule-changes-bytes|{}", fname), format!("delivered {} bytes != fault-free {} bytes under {:?}", bytes.len(), r.bytes.len(), fault)));
+        }
+        if *fr != r.finish_res {
+            out.push(v(format!("non-fatal-schedule-changes-stats|{}", fname), format!("finish returned {} but fault-free run returned {} under {:?}", fr.brief(), r.finish_res.brief(), fault)));
+        }
+        obs.count("non_fatal_schedules", 1);
+        obs.count("interrupted_results_injected", events.iter().filter(|e| e.res == Err(usize::MAX)).count() as u64);
+        obs.count("short_writes_injected", events.iter().filter(|e| matches!(e.res, Ok(n) if n < e.offered)).count() as u64);
+    }
+    obs.evaluations += 1;
+    obs.nontrivial(crate::util::mix(h.hash(), crate::util::fnv(format!("{:?}", fault).as_bytes())));
+    out
+}
+
+/// Enumerate all fault points of one history. level 0 = quick, 1 = thorough.
+pub fn check_all(h: &History, level: u8, obs: &mut Obs) -> Vec<(Violation, Fault)> {
+    let mut out: Vec<(Violation, Fault)> = Vec::new();
+    let Some(r) = reference(h) else {
+        obs.inconclusive += 1;
+        return out;
+    };
+    obs.count("histories", 1);
+    obs.count("reference_bytes", r.bytes.len() as u64);
+    obs.count("write_calls_in_reference", r.writes as u64);
+    let mut push = |vs: Vec<Violation>, f: &Fault, out: &mut Vec<(Violation, Fault)>| {
+        for x in vs {
+            if !out.iter().any(|(y, _)| y.sig == x.sig) {
+                out.push((x, f.clone()));
+            }
+        }
+    };
+    // (i) every write call x ErrorKind
+    let kinds: Vec<usize> = if level == 0 { vec![0, 1, 3, 6, 17] } else { (0..KINDS.len()).collect() };
+    for k in 0..r.writes {
+        for &kind in &kinds {
+            let f = Fault::FailWrite { k, kind };
+            let vs = check_one(h, &f, &r, obs);
+            push(vs, &f, &mut out);
+            obs.count("fault_points:fail-write(call x kind)", 1);
+        }
+    }
+    // (ii) every byte offset (all for small files; boundaries +-1 and a stride otherwise)
+    let n = r.bytes.len() as u64;
+    let limit = if level == 0 { 4096 } else { 16_384 };
+    let mut offsets: Vec<u64> = Vec::new();
+    if n <= limit {
+        offsets.extend(0..=n);
+        obs.count("histories_with_every_byte_offset", 1);
+    } else {
+        for &(at, len) in &r.write_spans {
+            for d in [-1i64, 0, 1] {
+                for base in [at as i64, at as i64 + len as i64] {
+                    let o = base + d;
+                    if o >= 0 && o as u64 <= n {
+                        offsets.push(o as u64);
+                    }
+                }
+            }
+        }
+        let stride = (n / 512).max(1);
+        offsets.extend((0..=n).step_by(stride as usize));
+        offsets.sort();
+        offsets.dedup();
+    }
+    for (i, &o) in offsets.iter().enumerate() {
+        let f = Fault::AcceptThenFail { n: o, kind: i % KINDS.len() };
+        let vs = check_one(h, &f, &r, obs);
+        push(vs, &f, &mut out);
+        obs.count("fault_points:byte-offset", 1);
+    }
+    // (iii) Ok(0) at every call
+    for k in 0..r.writes {
+        let f = Fault::ZeroAt { k };
+        let vs = check_one(h, &f, &r, obs);
+        push(vs, &f, &mut out);
+        obs.count("fault_points:ok-zero", 1);
+    }
+    // (iv) random short-write / Interrupted schedules, never fatal
+    let scheds = if level == 0 { 40 } else { 400 };
+    for s in 0..scheds {
+        let f = Fault::Schedule { seed: crate::util::mix(h.hash(), s), max_chunk: [1usize, 2, 7, 64, 4096][s as usize % 5], interrupt_pct: [0u8, 10, 40][s as usize % 3] };
+        let vs = check_one(h, &f, &r, obs);
+        push(vs, &f, &mut out);
+        obs.count("fault_points:schedules", 1);
+    }
+    let f = Fault::OneByte;
+    let vs = check_one(h, &f, &r, obs);
+    push(vs, &f, &mut out);
+    out
+}
